@@ -1,0 +1,179 @@
+//go:build verif
+
+package core
+
+// Exports for the external verification harness (build tag "verif").
+// Nothing in here is referenced by the non-tagged code.
+
+import (
+	"path"
+
+	"github.com/martian-lang/martian/martian/util"
+)
+
+// VerifJob describes one job handed to the job manager.
+type VerifJob struct {
+	ShellCmd     string
+	Argv         []string
+	Envs         map[string]string
+	MetadataPath string
+	FilesPath    string
+	JournalFile  string
+	Fqname       string
+	ShellName    string
+	Threads      float64
+	MemGB        float64
+	Preflight    bool
+	md           *Metadata
+}
+
+// Started marks the job as having been started, as the local job manager
+// does once the process exists.
+func (j *VerifJob) Started() error {
+	return j.md.remove(QueuedLocally)
+}
+
+// A job manager which hands every job to a callback instead of starting a
+// process.  Everything else behaves like the local job manager.
+type verifJobManager struct {
+	*LocalJobManager
+	exec func(*VerifJob)
+}
+
+func (m *verifJobManager) execJob(shellCmd string, argv []string,
+	envs map[string]string, metadata *Metadata, resRequest *JobResources,
+	fqname string, shellName string, preflight bool) {
+	res := m.GetSystemReqs(resRequest)
+	m.exec(&VerifJob{
+		ShellCmd:     shellCmd,
+		Argv:         argv,
+		Envs:         envs,
+		MetadataPath: metadata.path,
+		FilesPath:    metadata.curFilesPath,
+		JournalFile:  metadata.journalFile(),
+		Fqname:       fqname,
+		ShellName:    shellName,
+		Threads:      res.Threads,
+		MemGB:        res.MemGB,
+		Preflight:    preflight,
+		md:           metadata,
+	})
+}
+
+// VerifNewRuntime builds a Runtime without needing the jobmanagers
+// configuration directory next to the executable.  If exec is non-nil all
+// non-local jobs are handed to it instead of being run as processes.
+func VerifNewRuntime(opts *RuntimeOptions, cores, memGB int,
+	mrjob, adapters string, exec func(*VerifJob)) (*Runtime, error) {
+	rt := &Runtime{
+		Config:       opts,
+		adaptersPath: adapters,
+		mrjob:        mrjob,
+	}
+	rt.jobConfig = &JobManagerJson{
+		JobSettings: &JobManagerSettings{
+			ThreadsPerJob: 1,
+			MemGBPerJob:   1,
+			ExtraVmemGB:   1,
+			ThreadEnvs:    []string{"GOMAXPROCS"},
+		},
+	}
+	var err error
+	rt.LocalJobManager, err = NewLocalJobManager(cores, memGB, 0,
+		opts.Debug, false, false, rt.jobConfig)
+	if err != nil {
+		return nil, err
+	}
+	if exec != nil {
+		rt.JobManager = &verifJobManager{
+			LocalJobManager: rt.LocalJobManager,
+			exec:            exec,
+		}
+	} else {
+		rt.JobManager = rt.LocalJobManager
+	}
+	rt.overrides, _ = ReadOverrides("")
+	if opts.Overrides != nil {
+		rt.overrides = opts.Overrides
+	}
+	return rt, nil
+}
+
+// VerifSemaphores exposes the local job manager's semaphores (cores, memory).
+func (self *LocalJobManager) VerifSemaphores() (cores, mem, vmem, procs *ResourceSemaphore) {
+	return self.centcoreSem, self.memMBSem, self.vmemMBSem, self.procsSem
+}
+
+func VerifMakeKeySafe(k string) string { return makeKeySafe(k) }
+
+func VerifEncodeJournalName(s string) string { return encodeJournalName.Replace(s) }
+
+func VerifParseRunFilename(name string) (string, string, int, string, string) {
+	return (*Node)(nil).parseRunFilename(name)
+}
+
+// VerifForkIdString renders a fork id made of map keys and array indices
+// (idx < 0 means "use the key").
+func VerifForkIdString(keys []string, idx []int, lens []int) (string, error) {
+	id := make(ForkId, len(keys))
+	for i := range keys {
+		p := &ForkSourcePart{}
+		if idx[i] >= 0 {
+			p.Id = arrayIndexFork(idx[i])
+			p.Range = arrayLengthRange(lens[i])
+		} else {
+			p.Id = mapKeyFork(keys[i])
+		}
+		id[i] = p
+	}
+	return id.ForkIdString()
+}
+
+func VerifAppendShellSafeQuote(buf []byte, s string) []byte {
+	return appendShellSafeQuote(buf, s)
+}
+
+func VerifFormatArgs(envs map[string]string, shellCmd string, argv []string) string {
+	return formatArgs(envs, shellCmd, argv)
+}
+
+// VerifJobScript renders a job script from the given template text.
+func VerifJobScript(template string, shellCmd string, argv []string,
+	envs map[string]string, mdPath, fqname, shellName string,
+	threads, memGB float64) string {
+	m := &RemoteJobManager{
+		config: jobManagerConfig{
+			jobSettings: &JobManagerSettings{
+				ThreadsPerJob: 1, MemGBPerJob: 1, ExtraVmemGB: 1,
+				ThreadEnvs: []string{"MRO_THREADS"},
+			},
+			jobTemplate:      template,
+			threadingEnabled: true,
+		},
+	}
+	md := NewMetadata(fqname, mdPath)
+	return m.jobScript(shellCmd, argv, envs, md,
+		&JobResources{Threads: threads, MemGB: memGB}, fqname, shellName)
+}
+
+// VerifPipestanceNodes lists (fqname, kind, state) of every node.
+func (self *Pipestance) VerifNodeStates() map[string]string {
+	r := make(map[string]string)
+	for _, n := range self.allNodes() {
+		r[n.GetFQName()] = string(n.getState())
+	}
+	return r
+}
+
+// VerifForkDirs lists the fork directories of every node, by node fqname.
+func (self *Pipestance) VerifForkDirs() map[string][]string {
+	r := make(map[string][]string)
+	for _, n := range self.allNodes() {
+		for _, f := range n.forks {
+			r[n.GetFQName()] = append(r[n.GetFQName()], path.Base(f.path))
+		}
+	}
+	return r
+}
+
+func VerifRelPath(p string) string { return util.RelPath(p) }
